@@ -517,9 +517,14 @@ def gen_igs():
     m = re.search(r'pub fn parse_next_number\(x: i32, ch: u8\) -> i32 \{\s*x\.saturating_mul\(10\)\.saturating_add\(ch as i32\)\.saturating_sub\(b\'0\' as i32\)\s*\}', ms)
     if not m:
         raise ExtractError('igs parse_next_number changed')
-    m = re.search(r"'&' => \{\s*self\.state = State::ReadCommand\(IgsCommands::LoopCommand\);", ms)
+    # the loop sub-machine starts from `LoopState::Start` at EVERY `&` (the invariant IGood of the lexer model relies on it:
+    # a loop abandoned in its count field leaves the sub-state behind), and nothing else assigns `LoopState::Start`
+    m = re.search(r"'&' => \{\s*self\.state = State::ReadCommand\(IgsCommands::LoopCommand\);\s*self\.loop_state = LoopState::Start;\s*Ok\(CallbackAction::NoUpdate\)\s*\}", ms)
     if not m:
-        raise ExtractError('igs loop start changed')
+        raise ExtractError('igs loop start changed (the `&` arm no longer sets ReadCommand(LoopCommand) and loop_state = LoopState::Start)')
+    body = ms[ms.index('fn print_char('):]
+    if len(re.findall(r'self\.loop_state = LoopState::Start', body)) != 1:
+        raise ExtractError('igs: loop_state = LoopState::Start is assigned somewhere else than the `&` arm')
     out = [HEADER, 'namespace IcyVerif.Gen.Igs\n']
     out.append('/-- IgsCommands variants in declaration order (Debug names) -/\n')
     out.append('def commandNames : List String := [' + ', '.join(json.dumps(v) for v in variants) + ']\n')
